@@ -73,6 +73,13 @@ Returned(text) ==
           /\ Require(E.kind = "full" => E.len >= 1, "C02: list-style suggestion without a candidate")
           /\ Require(E.kind = "full" => E.text = text, "C02: auxiliary text is not the composition"))
     /\ (On("C06") => Require((E.kind \in {"single", "full"} /\ E.pre0 # <<>>) => E.ongoing, "C06: non-empty pre-edit text but no ongoing session"))
+    \* C16 inside whole sessions (the shadow driver logs the encoding facts; the configuration in force is the one of the last
+    \* new / update event): ANSI on - no emoji, every pre-edit text the Bijoy encoding without a Bengali code point; off - identity
+    /\ ((On("C16") /\ "anyemoji" \in DOMAIN E /\ "ansi" \in DOMAIN cfg /\ E.kind \in {"single", "full"}) =>
+            IF cfg.ansi
+            THEN /\ Require(~E.anyemoji, "C16: an emoji is offered in ANSI mode")
+                 /\ Require(~E.prebn /\ E.prebijoy, "C16: a pre-edit text in ANSI mode is not the pure Bijoy encoding of its candidate")
+            ELSE Require(E.preeq, "C16: ANSI off, but a pre-edit text differs from its candidate"))
 
 \* ----- the shadow: a brand-new context over the same configuration and user files, given the surviving text ------------
 \* The recorder (driver "shadow") compares the rendering of the returned suggestion with the one a brand-new context returns
@@ -157,6 +164,10 @@ Commit ==
     /\ (On("C01") => Require(E.panic = "", "C01: commit panicked"))
     /\ E.panic = ""
     /\ (On("C06") => Require(~E.ongoing, "C06: still ongoing after a commit"))
+    \* "committing the preselected candidate changes nothing" / nothing of a word leaks into the learned choices: only a commit
+    \* that can be a learning one (list-style suggestion, another index than the computed one) may change the store file
+    /\ ((Focus \in {"C06", "C09", "ALL"} /\ "filechg" \in DOMAIN E) =>
+            Require(E.filechg => E.learnable, "C06/C09: a commit that cannot have been a learning one changed the learned-selection file"))
     /\ comp' = <<>> /\ lastLen' = 0 /\ shown' = FALSE /\ ongoing' = E.ongoing /\ ended' = TRUE /\ wbs' = FALSE /\ UNCHANGED <<cfg, upd>> /\ l' = l + 1
 
 Finish ==
